@@ -400,11 +400,103 @@ class Evaluator(object):
         self._module_env[module.name] = env
         return env
 
+    def _written_names(self, stmts):
+        """Names bound or mutated by the statements (assignment targets, subscript stores, receivers of method calls)."""
+        out = set()
+        for st in stmts:
+            for n in ast.walk(st):
+                if isinstance(n, ast.Name) and isinstance(n.ctx, (ast.Store, ast.Del)):
+                    out.add(n.id)
+                elif isinstance(n, ast.Subscript) and isinstance(n.ctx, (ast.Store, ast.Del)) and isinstance(n.value, ast.Name):
+                    out.add(n.value.id)
+                elif isinstance(n, ast.Call) and isinstance(n.func, ast.Attribute) and isinstance(n.func.value, ast.Name) \
+                        and n.func.attr in ('update', 'setdefault', 'pop', 'popitem', 'clear', 'append', 'extend', 'insert', 'remove',
+                                            '__setitem__', '__delitem__', 'add', 'discard', 'sort', 'reverse'):
+                    out.add(n.func.value.id)
+        return out
+
+    def _make_opaque(self, names, scope, why, node):
+        for nm in names:
+            if nm in scope.env:
+                old = scope.env[nm]
+                scope.env[nm] = Term('opaque', node=old.node if old.node is not None else node, module=scope.module,
+                                     name='%s (%s)' % (nm, why))
+
+    def iter_elems(self, t):
+        """Elements of a finite literal iterable term (list of Terms) or None."""
+        if t.kind in ('list', 'tuple', 'set'):
+            return list(t.args)
+        if t.kind == 'dict':
+            return [k for k, _ in t.items]
+        if t.kind == 'const' and isinstance(t.value, str):
+            return [Term('const', value=ch, node=t.node, module=t.module) for ch in t.value]
+        if t.kind == 'const' and isinstance(t.value, (tuple, list)):
+            return [Term('const', value=v, node=t.node, module=t.module) for v in t.value]
+        return None
+
+    def _bind_target(self, target, value, env):
+        if isinstance(target, ast.Name):
+            env[target.id] = value
+            return True
+        if isinstance(target, (ast.Tuple, ast.List)):
+            elems = self.iter_elems(value)
+            if elems is None or len(elems) != len(target.elts) or any(isinstance(t, ast.Starred) for t in target.elts):
+                return False
+            return all(self._bind_target(t, v, env) for t, v in zip(target.elts, elems))
+        return False
+
     def _run_toplevel(self, stmts, scope):
         for s in stmts:
-            if isinstance(s, (ast.If, ast.Try)):
+            if isinstance(s, ast.For):
+                # a generating loop over literals is unrolled; anything else makes what it writes opaque (never "missing")
+                done = False
+                if not s.orelse:
+                    try:
+                        elems = self.iter_elems(self.eval(s.iter, scope))
+                    except Unsupported:
+                        elems = None
+                    if elems is not None and len(elems) <= 2000 and not any(
+                            isinstance(n, (ast.Break, ast.Continue, ast.Return)) for st in s.body for n in ast.walk(st)):
+                        saved = dict(scope.env)
+                        ok = True
+                        for e in elems:
+                            if not self._bind_target(s.target, e, scope.env):
+                                ok = False
+                                break
+                            self._run_toplevel(s.body, scope)
+                        if ok:
+                            done = True
+                        else:
+                            scope.env.clear()
+                            scope.env.update(saved)
+                if not done:
+                    self._make_opaque(self._written_names(s.body + s.orelse), scope, 'written in a loop', s)
+                continue
+            if isinstance(s, ast.While):
+                self._make_opaque(self._written_names(s.body + s.orelse), scope, 'written in a loop', s)
+                continue
+            if isinstance(s, ast.If):
+                try:
+                    t = self.eval(s.test, scope)
+                except Unsupported:
+                    t = None
+                if t is not None and t.kind == 'const':
+                    self._run_toplevel(s.body if t.value else s.orelse, scope)
+                else:
+                    written = self._written_names(s.body + s.orelse)
+                    before = set(scope.env)
+                    self._run_toplevel(s.body, scope)
+                    self._run_toplevel(s.orelse, scope)
+                    self._make_opaque(written & before, scope, 'written under a condition', s)
+                continue
+            if isinstance(s, ast.Try):
                 for field in ('body', 'orelse', 'finalbody'):
                     self._run_toplevel(getattr(s, field, []) or [], scope)
+                continue
+            if isinstance(s, ast.AugAssign) and isinstance(s.target, (ast.Name, ast.Subscript)):
+                nm = s.target.id if isinstance(s.target, ast.Name) else (s.target.value.id if isinstance(s.target.value, ast.Name) else None)
+                if nm is not None:
+                    self._make_opaque([nm], scope, 'augmented assignment', s)
                 continue
             if isinstance(s, ast.Expr) and isinstance(s.value, ast.Call) and isinstance(s.value.func, ast.Attribute) \
                     and isinstance(s.value.func.value, ast.Name) and s.value.func.value.id in scope.env \
@@ -605,22 +697,15 @@ class Evaluator(object):
                 elems = [v for _, v in src.items]
         else:
             src = self.eval(it, scope)
-            if src.kind == 'dict':
-                elems = [k for k, _ in src.items]
-            elif src.kind in ('list', 'tuple'):
-                elems = list(src.args)
-            else:
+            elems = self.iter_elems(src)
+            if elems is None:
                 raise Unsupported('comprehension over a non-table')
         items = []
         for e in elems:
             inner = scope.child()
             if isinstance(g.target, ast.Name):
                 inner.env[g.target.id] = e
-            elif isinstance(g.target, (ast.Tuple, ast.List)) and all(isinstance(t, ast.Name) for t in g.target.elts) \
-                    and e.kind in ('tuple', 'list') and len(e.args) == len(g.target.elts):
-                for t, v in zip(g.target.elts, e.args):
-                    inner.env[t.id] = v
-            else:
+            elif not self._bind_target(g.target, e, inner.env):
                 raise Unsupported('comprehension target not supported')
             kt = self.eval(node.key, inner)
             vt = self.eval(node.value, inner)
@@ -660,6 +745,8 @@ class Evaluator(object):
                     return Term('const', value=x + y, node=node, module=scope.module)
                 if isinstance(x, str) and isinstance(y, int) and isinstance(node.op, ast.Mult):
                     return Term('const', value=x * y, node=node, module=scope.module)
+                if isinstance(x, str) and isinstance(node.op, ast.Mod) and isinstance(y, (int, float, str, tuple)):
+                    return Term('const', value=x % y, node=node, module=scope.module)
             except (ZeroDivisionError, OverflowError, ValueError):
                 pass
         if a.kind in ('list', 'tuple') and b.kind == a.kind and isinstance(node.op, ast.Add):
@@ -765,6 +852,17 @@ class Evaluator(object):
                 owner = scope.owner.qualname if scope.owner is not None else None
                 tab = recv.value.extend(more, owner, extra_kw, node, scope.module)
                 return Term('schema', value=tab, node=node, module=scope.module)
+        if isinstance(func, ast.Attribute) and func.attr == 'format' and not any(k.arg is None for k in node.keywords):
+            recv = self.eval(func.value, scope)
+            if recv.kind == 'const' and isinstance(recv.value, str):
+                fa = self._elts(node.args, scope)
+                fk = {k.arg: self.eval(k.value, scope) for k in node.keywords}
+                if all(a.kind == 'const' for a in fa) and all(v.kind == 'const' for v in fk.values()):
+                    try:
+                        return Term('const', value=recv.value.format(*[a.value for a in fa], **{k: v.value for k, v in fk.items()}),
+                                    node=node, module=scope.module)
+                    except (IndexError, KeyError, ValueError, TypeError):
+                        pass
         callee = self.eval(func, scope)
         args = self._elts(node.args, scope)
         kwargs = {}
@@ -784,6 +882,16 @@ class Evaluator(object):
                         'dict': Term('dict', node=node, module=module), 'set': Term('set', node=node, module=module)}[callee.name]
             if callee.name in ('tuple', 'list') and len(args) == 1 and args[0].kind in ('tuple', 'list'):
                 return Term(callee.name, args=list(args[0].args), node=node, module=module)
+            if callee.name in ('zip', 'enumerate', 'range', 'dict', 'list', 'tuple', 'sorted', 'reversed', 'int', 'str', 'len') and not (
+                    callee.name in ('list', 'tuple', 'dict') and not args and not kwargs):
+                res = self._fold_builtin(callee.name, args, kwargs, node, module)
+                if res is not None:
+                    return res
+            if callee.name == 'float' and len(args) == 1 and args[0].kind == 'const' and isinstance(args[0].value, str):
+                try:
+                    return Term('const', value=float(args[0].value), node=node, module=module)
+                except ValueError:
+                    pass
             if callee.name == 'float' and len(args) == 1 and args[0].kind == 'const':
                 v = args[0].value
                 if isinstance(v, str) and v.strip().lower().lstrip('+-') in ('inf', 'infinity'):
@@ -820,6 +928,70 @@ class Evaluator(object):
         if callee.kind in ('call', 'closure', 'lambda', 'selfattr', 'opaque', 'const', 'schema'):
             return Term('call', name=callee.text(), callee=callee, args=args, kwargs=kwargs, node=node, module=module)
         return Term('opaque', node=node, module=module)
+
+    def _fold_builtin(self, name, args, kwargs, node, module):
+        """Closed constant computations over literals: zip / enumerate / range / dict(pairs) / list / tuple / sorted /
+        reversed / int / str / len.  None when the arguments are not finite literal data."""
+        mk = lambda kind, elems: Term(kind, args=list(elems), node=node, module=module)
+        seqs = [self.iter_elems(a) for a in args]
+        if name == 'zip' and not kwargs and args and all(x is not None for x in seqs):
+            return mk('list', [mk('tuple', row) for row in zip(*seqs)])
+        if name == 'enumerate' and 1 <= len(args) <= 2 and seqs[0] is not None:
+            start = kwargs.get('start', args[1] if len(args) == 2 else None)
+            if start is None:
+                s0 = 0
+            elif start.kind == 'const' and isinstance(start.value, int) and not isinstance(start.value, bool):
+                s0 = start.value
+            else:
+                return None
+            return mk('list', [mk('tuple', [Term('const', value=s0 + i, node=node, module=module), e]) for i, e in enumerate(seqs[0])])
+        if name == 'range' and not kwargs and 1 <= len(args) <= 3 and all(
+                a.kind == 'const' and isinstance(a.value, int) and not isinstance(a.value, bool) for a in args):
+            try:
+                rg = range(*[a.value for a in args])
+            except ValueError:
+                return None
+            if len(rg) > 5000:
+                return None
+            return mk('list', [Term('const', value=i, node=node, module=module) for i in rg])
+        if name == 'dict' and len(args) <= 1:
+            items = []
+            if args:
+                if args[0].kind == 'dict':
+                    items = list(args[0].items)
+                elif seqs[0] is not None:
+                    for e in seqs[0]:
+                        pair = self.iter_elems(e)
+                        if pair is None or len(pair) != 2:
+                            return None
+                        items.append((pair[0], pair[1]))
+                else:
+                    return None
+            for k, v in kwargs.items():
+                items.append((Term('const', value=k, node=node, module=module), v))
+            out = []
+            for k, v in items:
+                out = [(k2, v2) for k2, v2 in out if not (k2.kind == 'const' and k.kind == 'const' and k2.value == k.value)]
+                out.append((k, v))
+            return Term('dict', items=out, node=node, module=module)
+        if name in ('list', 'tuple') and len(args) == 1 and not kwargs and seqs[0] is not None:
+            return mk(name, seqs[0])
+        if name == 'reversed' and len(args) == 1 and seqs[0] is not None:
+            return mk('list', reversed(seqs[0]))
+        if name == 'sorted' and len(args) == 1 and not kwargs and seqs[0] is not None and all(e.kind == 'const' for e in seqs[0]):
+            try:
+                return mk('list', sorted(seqs[0], key=lambda e: e.value))
+            except TypeError:
+                return None
+        if name == 'len' and len(args) == 1 and seqs[0] is not None:
+            return Term('const', value=len(seqs[0]), node=node, module=module)
+        if name in ('int', 'str') and len(args) == 1 and not kwargs and args[0].kind == 'const' and \
+                isinstance(args[0].value, (int, float, str)) and not isinstance(args[0].value, bool):
+            try:
+                return Term('const', value={'int': int, 'str': str}[name](args[0].value), node=node, module=module)
+            except (ValueError, OverflowError):
+                return None
+        return None
 
     def _make_schema(self, args, kwargs, node, scope):
         if not args:
